@@ -384,6 +384,8 @@ func ruleCut(p *Prog, r *Report) {
 	cut := p.Func("shaping", "", "cutRun")
 	pbo := p.Func("shaping", "LineWrapper", "processBreakOption")
 	sinks := []*ssa.Function{p.Func("shaping", "wrapBuffer", "candidateAppend"), p.Func("shaping", "wrapBuffer", "markCandidateBest")}
+	visiting := map[*ssa.Function]bool{}
+	bound := map[*ssa.Parameter]ssa.Value{} // parameters of the helpers being looked into -> arguments of the call
 	var origin func(v ssa.Value, d int) string
 	origin = func(v ssa.Value, d int) string {
 		if d > 10 {
@@ -393,6 +395,34 @@ func ruleCut(p *Prog, r *Report) {
 		case *ssa.Call:
 			if x.Common().StaticCallee() == cut {
 				return ""
+			}
+			// a helper of the package wrapping cutRun: every Output it returns must have a good origin itself (a local
+			// Output whose whole-value stores come from cutRun or the iterator; its fields may then be adjusted)
+			if sc := x.Common().StaticCallee(); sc != nil && visiting[sc] {
+				return "" // a cycle through the helper being examined (a loop variable fed back to it): nothing new
+			}
+			if sc := x.Common().StaticCallee(); sc != nil && sc.Blocks != nil && fnPkg(sc) == fnPkg(cut) && sc.Signature.Results().Len() == 1 {
+				visiting[sc] = true
+				defer delete(visiting, sc)
+				for i, q := range sc.Params {
+					if i < len(x.Common().Args) {
+						bound[q] = x.Common().Args[i]
+						defer delete(bound, q)
+					}
+				}
+				res := ""
+				found := false
+				for _, b := range sc.Blocks {
+					if ret, ok := b.Instrs[len(b.Instrs)-1].(*ssa.Return); ok {
+						found = true
+						if s := origin(ret.Results[0], d+1); s != "" && res == "" {
+							res = s
+						}
+					}
+				}
+				if found {
+					return res
+				}
 			}
 			return "result of " + x.String()
 		case *ssa.Extract:
@@ -445,6 +475,10 @@ func ruleCut(p *Prog, r *Report) {
 		case *ssa.Const:
 			if x.IsNil() {
 				return ""
+			}
+		case *ssa.Parameter:
+			if a, ok := bound[x]; ok {
+				return origin(a, d+1)
 			}
 		}
 		return fmt.Sprintf("%T %s", v, v.String())
